@@ -21,6 +21,7 @@ import (
 	"google.golang.org/grpc/internal/balancer/gracefulswitch"
 	"google.golang.org/grpc/internal/zzverif/core"
 	"google.golang.org/grpc/resolver"
+	"google.golang.org/grpc/serviceconfig"
 )
 
 type c33Op struct {
@@ -502,10 +503,7 @@ func runC33(e *core.Env, s *c33Scenario) {
 			cc.Into(func() { gsb.SwitchTo(stubBuilder{idx: op.B}) })
 			h.curSw = nil
 		case "cfg":
-			cfg, err := gracefulswitch.ParseConfig(json.RawMessage(fmt.Sprintf(`[{%q: {}}]`, stubName(op.B))))
-			if err != nil {
-				panic(err)
-			}
+			cfg := gsCfgs[op.B]
 			beginSwitch()
 			cc.Into(func() { gsb.UpdateClientConnState(balancer.ClientConnState{ResolverState: rs, BalancerConfig: cfg}) })
 			if h.curSw != nil {
@@ -561,4 +559,16 @@ func runC33(e *core.Env, s *c33Scenario) {
 	h.check(true)
 }
 
-func init() { core.Register("C33", genC33, runC33) }
+// gsCfgs: parsed outside the bubble (see the note on pfCfgShuffle in c34_test.go).
+var gsCfgs [nStubBuilders]serviceconfig.LoadBalancingConfig
+
+func init() {
+	for i := range gsCfgs {
+		cfg, err := gracefulswitch.ParseConfig(json.RawMessage(fmt.Sprintf(`[{%q: {}}]`, stubName(i))))
+		if err != nil {
+			panic(err)
+		}
+		gsCfgs[i] = cfg
+	}
+	core.Register("C33", genC33, runC33)
+}
